@@ -186,6 +186,19 @@ Example C03_nested_constants :
   uk cE ntP (VList [VInt 5]) (cu true (SNamed "N2D")) = Ok (VNT "N2D" [VNT "ND" [VNone]]).
 Proof. repeat (match goal with |- _ /\ _ => split end); vm_compute; reflexivity. Qed.
 
+(* collection unpackers rebuild the canonical concrete classes, from any iterable / mapping input *)
+Example C03_collections :
+  let box b x := VObj (box_name b) [("", x)] in
+  dec (SSeq SIntT) (VTuple [VInt 1; VStr "2"]) = Ok (VList [VInt 1; VInt 2]) /\
+  dec (SBox BDeque (SSeq SIntT)) (VStr "12") = Ok (box BDeque (VList [VInt 1; VInt 2])) /\
+  dec (SBox BCounter (SMap SStrT SIntT)) (VDict [(VStr "a", VStr "1")]) = Ok (box BCounter (VDict [(VStr "a", VInt 1)])) /\
+  dec (SBox BChain (SSeq (SMap SStrT SIntT))) (VList []) = Ok (box BChain (VList [])) /\
+  dec (SBox BChain (SSeq (SMap SStrT SIntT))) (VList [VDict []]) = Ok (box BChain (VList [])) /\
+  dec (SBox BChain (SSeq (SMap SStrT SIntT))) (VDict [(VStr "a", VInt 1)]) = Exn XAttributeError /\
+  dec (SMap SStrT SIntT) (VList []) = Exn XAttributeError /\
+  dec (SBox BOrdered (SMap SStrT SIntT)) VNone = Exn XAttributeError.
+Proof. cbv zeta. repeat (match goal with |- _ /\ _ => split end); vm_compute; reflexivity. Qed.
+
 Example C03_typed_optional_key :
   dec (STyped "TD") (VDict [(VStr "zz", VNone); (VStr "r", VList [VStr "2"])]) = Ok (VDict [(VStr "r", VList [VInt 2])]) /\
   dec (STyped "TD") (VDict [(VStr "o", VStr "1"); (VStr "r", VList [])]) = Ok (VDict [(VStr "r", VList []); (VStr "o", VInt 1)]) /\
